@@ -212,4 +212,16 @@ theorem cmpVisEdge_dummy_first (rot : EdgeKey → EdgeKey → Bool) (u v : EdgeK
 example : cmpNodePos ⟨1, 2, 100⟩ ⟨1, 3, 50⟩ = true ∧ cmpNodePos ⟨1, 2, 10⟩ ⟨1, 3, 500⟩ = true := by decide
 example : cmpVertInf ⟨0, 0, 5⟩ ⟨0, 0, 7⟩ = true ∧ cmpVertInf ⟨0, 0, 7⟩ ⟨0, 0, 5⟩ = false := by decide
 
+open AdaptaVerif.Model.RouteCost in
+-- non-vacuity of cmpVisEdge_address_only_at_equal_endpoints: a rotation comparator that reads no address (hrot), two dummy
+-- edges with different lower endpoints (h); the theorem instantiated for exchanged addresses
+example : cmpVisEdge (fun e f => ptLt e.a f.a) ⟨false, ⟨0, 0⟩, ⟨1, 0⟩, 7⟩ ⟨false, ⟨0, 1⟩, ⟨1, 0⟩, 3⟩ =
+    cmpVisEdge (fun e f => ptLt e.a f.a) ⟨false, ⟨0, 0⟩, ⟨1, 0⟩, 3⟩ ⟨false, ⟨0, 1⟩, ⟨1, 0⟩, 7⟩ :=
+  cmpVisEdge_address_only_at_equal_endpoints (fun e f => ptLt e.a f.a) ⟨false, ⟨0, 0⟩, ⟨1, 0⟩, 3⟩ ⟨false, ⟨0, 1⟩, ⟨1, 0⟩, 7⟩
+    (fun _ _ => rfl) (Or.inr (Or.inr (Or.inl (by decide)))) 7 3
+
+-- the Incomp characterisations are not between constantly false sides
+example : Incomp pointLess ⟨1, 2⟩ ⟨1, 2⟩ ∧ ¬ Incomp pointLess ⟨1, 2⟩ ⟨1, 3⟩ := by
+  rw [pointLt_equiv_iff_equal, pointLt_equiv_iff_equal]; exact ⟨rfl, by decide⟩
+
 end AdaptaVerif.Props.C20Tie
